@@ -570,3 +570,140 @@ def exhaustive_selection():
 
 EXHAUSTIVE['C02'] = [exhaustive_selection]
 EXHAUSTIVE['C01'] = [exhaustive_selection]
+
+def exhaustive_forbid():
+    """C07: every forbidding form (FORBID_CALL, with WITH, TIMES(0), RT_TIMES(0,0), the _V and scoped forms, on int / void / string / two-parameter
+    functions) alone, over an older ALLOW_CALL and under a newer REQUIRE_CALL, every call string over {matching, not matching} up to length 3
+    (a forbidden call reports every time), then end of life"""
+    segs = []
+    forms = [(12, 1), (13, 1), (14, 1), (2, 1), (68, 1), (63, 4), (62, 4), (53, 4), (33, 2), (43, 3), (102, 1)]
+    strings = [''.join(s) for n in range(1, 4) for s in itertools.product('mx', repeat=n)]
+    for (sh, fn) in forms:
+        for ctx in ('alone', 'over-allow', 'under-require'):
+            for cs in strings:
+                mock = 3 if sh == 102 else 0
+                ops = ['mock %d' % mock]
+                if ctx == 'over-allow':
+                    allow = {1: 9, 2: 32, 3: 42, 4: 52}[fn] if mock == 0 else 101
+                    ops.append(expect_line(2, allow, mock, retv=200))
+                w = ((1, 1), (0, 0), (0, 0)) if DERIVED[sh]['nw'] else ((0, 0),) * 3
+                ops.append(expect_line(1, sh, mock, p=((1, 1), (0, 0)), w=w, retv=100, lo=0, hi=0))
+                if ctx == 'under-require':
+                    req = {1: 2, 2: 30, 3: 40, 4: 50}[fn] if mock == 0 else 100
+                    ops.append(expect_line(3, req, mock, p=((1, 1), (0, 0)), retv=300, lo=1, hi=1))
+                for ch in cs:
+                    ops.append('call %d %d %d 0' % (mock, fn, 1 if ch == 'm' else 0))
+                ops += ['release 1']
+                segs.append(('xf-%d-%s-%s' % (sh, ctx, cs), ops))
+    # scoped forms: the forbidding expectation lives in a block
+    for sh in (73, 76, 79, 81):
+        fn = DERIVED[sh]['fn']
+        for cs in strings:
+            w = ((1, 1), (0, 0), (0, 0)) if DERIVED[sh]['nw'] else ((0, 0),) * 3
+            ops = ['mock 0', expect_line(2, 9 if fn == 1 else 52, 0, retv=200),
+                   'scope' + expect_line(1, sh, 0, p=((1, 1), (0, 0)), w=w, retv=100, lo=0, hi=0)[len('expect'):]]
+            ops += ['call 0 %d %d 0' % (fn, 1 if ch == 'm' else 0) for ch in cs]
+            ops += ['endscope', 'call 0 %d 1 0' % fn]
+            segs.append(('xf-scoped-%d-%s' % (sh, cs), ops))
+    return segs
+
+def exhaustive_clauses():
+    """C08: WITH lists of length 1..3 with every position failing / none failing, SIDE_EFFECT lists of length 0..3 with a throwing
+    effect at every position, RETURN / THROW / void, a matching call, a call matching nothing (report composed) and a second matching call"""
+    segs = []
+    # shape, nw, ns
+    for sh in (3, 4, 21, 8, 51, 41, 31, 16, 25, 92):
+        d = DERIVED[sh]
+        nw, ns = d['nw'], d['ns']
+        for failw in range(0, nw + 1):
+            for thr in range(0, ns + 1):
+                for kind in (1, 2):
+                    w = [(0, 0)] * 3
+                    if failw:
+                        w[failw - 1] = (1, 7)            # WITH number failw requires _1 == 7: fails for the argument 1
+                    se = [0, 0, 0]
+                    if thr:
+                        se[thr - 1] = kind
+                    q = (1, 2) if d['nq'] == 2 else ((1, 0) if d['nq'] == 1 else (0, 0))
+                    ops = ['mock 0', 'seq 1', 'seq 2', 'tracer 1 1',
+                           expect_line(1, sh, 0, p=((0, 0), (0, 0)), w=tuple(w), se=tuple(se), retv=100, lo=0, hi=INF if d['rt'] else 1, q=q)]
+                    fn = d['fn']
+                    ops += ['call 0 %d 1 1' % fn, 'call 0 %d 7 7' % fn, 'call 0 %d 1 1' % fn, 'release 1', 'dtracer 1']
+                    segs.append(('xc-%d-w%d-t%d.%d' % (sh, failw, thr, kind), ops))
+    return segs
+
+def exhaustive_monitors():
+    """C13/C14: one watched object with 1..3 requirements (unsequenced / sequenced), every order of {release requirement i, destroy the object},
+    with a copy, a move, a copy-assignment and a move-assignment of the object at the start"""
+    segs = []
+    for n in (1, 2, 3):
+        for seqd in (0, 1):
+            items = ['u%d' % k for k in range(1, n + 1)] + ['d']
+            for perm in itertools.permutations(items):
+                for pre in ('', 'cpobj 1 2', 'mvobj 1 2', 'asobj', 'masobj'):
+                    ops = ['obj 1', 'seq 1']
+                    if pre in ('asobj', 'masobj'):
+                        ops.append('obj 2')
+                    for k in range(1, n + 1):
+                        ops.append('watch %d 1 %d %d 0' % (k, seqd, 1 if seqd else 0))
+                    if pre in ('asobj', 'masobj'):
+                        ops.append('%s 1 2' % pre)
+                    elif pre:
+                        ops.append(pre)
+                    for it in perm:
+                        ops.append('dobj 1' if it == 'd' else 'unwatch %s' % it[1:])
+                    ops.append('dobj 2')
+                    segs.append(('xm-%d-%d-%s-%s' % (n, seqd, ''.join(perm), pre.split()[0] if pre else 'none'), ops))
+    return segs
+
+def exhaustive_reports():
+    """C15/C16: a saturated expectation that does not match, a saturated one that does, live expectations failing on a parameter / on the first /
+    second WITH, on two functions; a call matching nothing, then a call a listed expectation accepts (OK report), reporter swapped in between"""
+    segs = []
+    for satmatch in (0, 1):
+        for wfail in (0, 1, 2):
+            for swap in (0, 1):
+                for moved in (0, 1):
+                    ops = ['mock 0',
+                           expect_line(1, 2, 0, p=((1, 0), (0, 0)), retv=100, lo=1, hi=1), 'call 0 1 0 0',       # saturated, matches 0
+                           expect_line(2, 4, 0, p=((2, 0), (0, 0)), w=((1, 1) if wfail == 1 else (0, 0), (1, 1) if wfail == 2 else (0, 0), (0, 0)), retv=200, lo=1, hi=2),
+                           expect_line(3, 40, 0, p=((1, 1), (1, 2)), retv=300, lo=1, hi=1)]
+                    if moved:
+                        ops.append('mmock 0 1')
+                    m = 1 if moved else 0
+                    if swap:
+                        ops.append('setrep 2 1')
+                    ops.append('call %d 1 %d 0' % (m, 0 if satmatch else 2))        # 0: only the saturated one matches; 2: e2 unless a WITH fails
+                    ops.append('call %d 3 1 1' % m)                                   # g(1,1): second parameter rejects
+                    ops.append('call %d 3 2 2' % m)                                   # g(2,2): first parameter rejects
+                    if swap:
+                        ops.append('setrep 1 0')
+                    ops.append('call %d 1 1 0' % m)                                   # e2 accepts when its WITH terms allow
+                    ops.append('call %d 3 1 2' % m)
+                    ops += ['release 2', 'release 3', 'release 1']
+                    segs.append(('xr-%d-%d-%d-%d' % (satmatch, wfail, swap, moved), ops))
+    return segs
+
+def exhaustive_tracers():
+    """C17: 1..3 tracers (custom / stream), every destruction order, an accepted call (value, void, std exception, other exception) after every step"""
+    segs = []
+    for n in (1, 2, 3):
+        for kinds in itertools.product((1, 2), repeat=n):
+            if n == 3 and kinds.count(2) > 1:
+                continue
+            for perm in itertools.permutations(range(1, n + 1)):
+                ops = ['mock 0', expect_line(1, 9, 0, retv=100), expect_line(2, 52, 0), expect_line(3, 15, 0, p=((1, 5), (0, 0)), lo=0, hi=INF),
+                       expect_line(4, 16, 0, p=((1, 6), (0, 0)), se=(0, 0, 0), lo=0, hi=INF), 'call 0 1 0 0']
+                probe = ['call 0 1 0 0', 'call 0 4 0 0', 'call 0 1 5 0', 'call 0 1 6 0']
+                for t in range(1, n + 1):
+                    ops.append('tracer %d %d' % (t, kinds[t - 1]))
+                    ops += probe[:2]
+                ops += probe
+                for t in perm:
+                    ops.append('dtracer %d' % t)
+                    ops += probe
+                segs.append(('xtr-%s-%s' % (''.join(map(str, kinds)), ''.join(map(str, perm))), ops))
+    return segs
+
+EXHAUSTIVE.update({'C07': [exhaustive_forbid], 'C08': [exhaustive_clauses], 'C13': [exhaustive_monitors], 'C14': [exhaustive_monitors],
+                   'C15': [exhaustive_reports, exhaustive_forbid], 'C16': [exhaustive_reports], 'C17': [exhaustive_tracers]})
